@@ -836,7 +836,17 @@ def check_full_package_accepted(F, V9):
         if k[0] == 'full' and not holds:
             return frozenset(facts | {('notfull',)})
         return facts
-    ex = Explorer(cfg, block_effect=block_effect, edge_effect=edge_effect, var_roots=set())
+    # bool locals that are `true` on one arm and a comparison on another (`let ok = a == b || (c && d < e)`): their constant
+    # definitions are tracked, after the other ones the value is unknown until it is switched on
+    from facts import Operand as _Op
+    mixed = set()
+    for l, ds in cfg.defs.items():
+        if b.lty(l) != 'bool' or len(ds) < 2:
+            continue
+        consts = [1 for (bi_, si_, d_) in ds if si_ != 'call' and d_.rv['k'] == 'use' and _Op(d_.rv['o']).is_const]
+        if consts and len(consts) < len(ds):
+            mixed.add(l)
+    ex = Explorer(cfg, block_effect=block_effect, edge_effect=edge_effect, var_roots=set(), extra_flags=mixed)
     ex.run()
     V9.paths += ex.n_states
     ends = [blk.i for blk in b.calls() if blk.term.callee.path.endswith('FileTransfer::check_finished')] or list(cfg.exits)
